@@ -103,6 +103,9 @@ func (s *MemStore) Set(key []byte, data []byte, ttl time.Duration) error {
 	if f.Kind == "error" {
 		return ErrInjected
 	}
+	if f.Kind == "drop" {
+		return nil // acknowledged but never applied: the process "died" before this write
+	}
 	s.mu.Lock()
 	s.m[k] = append([]byte{}, data...)
 	s.mu.Unlock()
@@ -119,6 +122,9 @@ func (s *MemStore) Delete(key []byte) error {
 	s.logCall(StoreCall{Op: "delete", Key: k, Fault: f.Kind})
 	if f.Kind == "error" {
 		return ErrInjected
+	}
+	if f.Kind == "drop" {
+		return nil
 	}
 	s.mu.Lock()
 	delete(s.m, k)
